@@ -1328,6 +1328,7 @@ pub fn run(cfg: &Cfg) -> Report {
   }
   degenerate(cfg, &mut rep);
   multibyte(cfg, &mut rep, &bases, n_corpus);
+  related(cfg, &mut rep, &bases, n_corpus);
   deploy_isolation(cfg, &mut rep, &loaded);
   scale(cfg, &mut rep);
   let mut model = Model::start(&cfg.driver);
@@ -2665,6 +2666,330 @@ fn multibyte(cfg: &Cfg, rep: &mut Report, bases: &[(String, String)], n_corpus: 
             }
           }
         }
+      }
+    }
+  }
+}
+
+// ------------------------------------------------------------------------------------------
+// family `related`: pairs of faults on related attributes — a value the XML layer reads is replaced by a value
+// derived from OTHER attributes of the same document
+// ------------------------------------------------------------------------------------------
+
+/// A small written-out base with every kind of reference (the shipped examples supply the rest).
+fn related_base() -> String {
+  r##"<?xml version="1.0" encoding="UTF-8"?>
+<definitions namespace="https://verif.example/c12/related" name="c12-related" id="_defs" xmlns="https://www.omg.org/spec/DMN/20191111/MODEL/">
+  <import namespace="https://verif.example/c12/imported" name="imp" importType="https://www.omg.org/spec/DMN/20191111/MODEL/"/>
+  <itemDefinition name="tNum" id="_t"><typeRef>number</typeRef></itemDefinition>
+  <inputData name="In" id="_in"><variable name="In" typeRef="tNum"/></inputData>
+  <knowledgeSource name="Src" id="_src"/>
+  <businessKnowledgeModel name="F" id="_f"><variable name="F"/><encapsulatedLogic><formalParameter name="a" typeRef="number"/><literalExpression><text>a + 1</text></literalExpression></encapsulatedLogic></businessKnowledgeModel>
+  <decision name="Base" id="_base"><variable name="Base" typeRef="number"/><informationRequirement><requiredInput href="#_in"/></informationRequirement><literalExpression><text>In + 40</text></literalExpression></decision>
+  <decision name="Answer" id="_answer"><variable name="Answer" typeRef="tNum"/><informationRequirement><requiredDecision href="#_base"/></informationRequirement><knowledgeRequirement><requiredKnowledge href="#_f"/></knowledgeRequirement><authorityRequirement><requiredAuthority href="#_src"/></authorityRequirement><literalExpression><text>F(Base)</text></literalExpression></decision>
+  <decisionService name="Svc" id="_svc"><variable name="Svc"/><outputDecision href="#_answer"/><encapsulatedDecision href="#_base"/><inputData href="#_in"/></decisionService>
+</definitions>"##
+    .to_string()
+}
+
+/// The values derived from the other attributes of a document whose namespace is `ns`: the namespace, the name, the
+/// identifiers, other names, type references, references and import namespaces, bare and in every combination with
+/// `#` and the namespace a reader of references might split at (`#v`, `ns#v`, `ns#ns#v`, `v#`, `v#ns`, `ns#`, `#ns`),
+/// and the texts without any content (empty, `#`, `##`).
+fn related_values(ns: &str, name: &str, ids: &[String], names: &[String], type_refs: &[String], hrefs: &[String], imports: &[String]) -> Vec<(String, String)> {
+  let mut vs: Vec<(String, String)> = vec![("empty".into(), String::new()), ("#".into(), "#".into()), ("##".into(), "##".into())];
+  vs.push(("ns".into(), ns.to_string()));
+  vs.push(("ns#".into(), format!("{}#", ns)));
+  vs.push(("#ns".into(), format!("#{}", ns)));
+  vs.push(("ns#ns".into(), format!("{}#{}", ns, ns)));
+  vs.push(("ns#ns#".into(), format!("{}#{}#", ns, ns)));
+  let mut derived = |kind: &str, v: &str, full: bool| {
+    vs.push((kind.to_string(), v.to_string()));
+    vs.push((format!("#{}", kind), format!("#{}", v)));
+    vs.push((format!("ns#{}", kind), format!("{}#{}", ns, v)));
+    if full {
+      vs.push((format!("{}#", kind), format!("{}#", v)));
+      vs.push((format!("ns#ns#{}", kind), format!("{}#{}#{}", ns, ns, v)));
+      vs.push((format!("{}#ns", kind), format!("{}#{}", v, ns)));
+    }
+  };
+  derived("name", name, false);
+  for (k, id) in ids.iter().enumerate() {
+    derived(&format!("id{}", k), id, true);
+  }
+  for (k, n) in names.iter().enumerate() {
+    derived(&format!("name{}", k), n, false);
+  }
+  for (k, t) in type_refs.iter().enumerate() {
+    derived(&format!("typeRef{}", k), t, false);
+  }
+  for (k, i) in imports.iter().enumerate() {
+    derived(&format!("import{}", k), i, true);
+  }
+  for (k, h) in hrefs.iter().enumerate() {
+    vs.push((format!("href{}", k), h.clone()));
+    vs.push((format!("ns+href{}", k), format!("{}{}", ns, h)));
+    vs.push((format!("href{}-without-#", k), h.replace('#', "")));
+    vs.push((format!("href{}-before-#", k), h.split('#').next().unwrap_or("").to_string()));
+  }
+  let mut seen = std::collections::HashSet::new();
+  vs.retain(|(_, v)| seen.insert(v.clone()));
+  vs
+}
+
+/// For every attribute value the XML layer reads (`href`, `typeRef` — attribute or element text —, `id`, `name`,
+/// `namespace` of the document and of its imports, `locationURI`; one position per class element × attribute × parent,
+/// thorough: three) every value derived from the other attributes of the same document (`related_values`), alone and
+/// together with a second fault on the document's namespace (emptied, removed, `#`, set to the text of a reference, to
+/// that text up to `#`, to the name, to an identifier, to an import's namespace — the derived values then follow the
+/// new namespace), and sampled pairs of two such replacements; over the written-out base, the two well-formed corpus
+/// models and the smallest shipped example per construct.  Oracle: the standard of C12 (a model, or an error).
+fn related(cfg: &Cfg, rep: &mut Report, bases: &[(String, String)], n_corpus: usize) {
+  let thorough = cfg.tier == "thorough";
+  let mut rng = Rng::new(cfg.seed ^ 0x0072_656c_6174_6564);
+  let mut chosen: Vec<(String, String)> = vec![("written:related".to_string(), related_base())];
+  for (n, t) in bases.iter().take(n_corpus) {
+    if n.contains("compound output") || n.contains("graph with a decision service") {
+      chosen.push((n.clone(), t.clone()));
+    }
+  }
+  for key in [
+    "<requiredDecision",
+    "<requiredInput",
+    "<requiredKnowledge",
+    "<requiredAuthority",
+    "<encapsulatedDecision",
+    "<inputDecision",
+    "<outputDecision",
+    "<import ",
+    "<decisionService",
+    "<itemComponent",
+    "<invocation",
+    "<functionDefinition",
+    "<knowledgeSource",
+    "<relation",
+    "<list",
+    "<context>",
+    "DMNShape",
+    "allowedValues",
+    "<outputValues",
+    "typeLanguage",
+  ] {
+    let limit = if thorough { 60_000 } else { 30_000 };
+    let best = bases.iter().skip(n_corpus).filter(|(n, t)| n.ends_with(".dmn") && t.contains(key) && t.len() < limit).min_by_key(|(_, t)| t.len());
+    if let Some((n, t)) = best {
+      if !chosen.iter().any(|c| &c.0 == n) {
+        chosen.push((n.clone(), t.clone()));
+      }
+    }
+  }
+  const READ: [&str; 6] = ["href", "typeRef", "id", "name", "namespace", "locationURI"];
+  struct W {
+    base: usize,
+    cases: Vec<(usize, Vec<(usize, usize, String)>)>,
+    meta: Vec<String>,
+  }
+  let mut works: Vec<W> = vec![];
+  for (bi, (_, text)) in chosen.iter().enumerate() {
+    let doc = match scan(text) {
+      Some(d) => d,
+      None => continue,
+    };
+    let root = match doc.elems.iter().find(|e| local(&e.name) == "definitions") {
+      Some(r) => r,
+      None => continue,
+    };
+    let val = |a: &Attr| text[a.val_start..a.val_end].to_string();
+    let attr_of = |e: &Elem, n: &str| e.attrs.iter().find(|a| a.name == n).map(val);
+    let ns0 = attr_of(root, "namespace").unwrap_or_default();
+    let name0 = attr_of(root, "name").unwrap_or_default();
+    let mut ids: Vec<String> = vec![];
+    let mut names: Vec<String> = vec![];
+    let mut type_refs: Vec<String> = vec![];
+    let mut hrefs: Vec<String> = vec![];
+    let mut imports: Vec<String> = vec![];
+    let add = |v: &mut Vec<String>, x: String, max: usize| {
+      if v.len() < max && !v.contains(&x) {
+        v.push(x);
+      }
+    };
+    // the identifier of the document, the identifiers that references point to, then the others
+    if let Some(i) = attr_of(root, "id") {
+      add(&mut ids, i, 4);
+    }
+    for e in &doc.elems {
+      if let Some(h) = attr_of(e, "href") {
+        add(&mut hrefs, h.clone(), 2);
+        add(&mut ids, h.rsplit('#').next().unwrap_or("").to_string(), 3);
+      }
+      if local(&e.name) == "import" {
+        if let Some(n) = attr_of(e, "namespace") {
+          add(&mut imports, n, 2);
+        }
+      }
+      if let Some(t) = attr_of(e, "typeRef") {
+        add(&mut type_refs, t, 2);
+      }
+      if e.parent.is_some() {
+        if let Some(n) = attr_of(e, "name") {
+          add(&mut names, n, 2);
+        }
+      }
+    }
+    for e in &doc.elems {
+      if let Some(i) = attr_of(e, "id") {
+        add(&mut ids, i, 4);
+      }
+    }
+    // positions: one per class (element, attribute, parent element); thorough: three
+    let per_class = if thorough { 3 } else { 1 };
+    let mut class_n: std::collections::HashMap<String, usize> = std::collections::HashMap::new();
+    let mut slots: Vec<(String, usize, usize)> = vec![];
+    for e in &doc.elems {
+      let parent = e.parent.map(|p| local(&doc.elems[p].name).to_string()).unwrap_or_default();
+      for a in &e.attrs {
+        if !READ.contains(&a.name.as_str()) || (std::ptr::eq(e, root) && a.name == "namespace") {
+          continue;
+        }
+        let class = format!("<{}> {} in <{}>", local(&e.name), a.name, parent);
+        let n = class_n.entry(class.clone()).or_insert(0);
+        if *n < per_class {
+          *n += 1;
+          slots.push((format!("{}@{}", class, a.full_start), a.val_start, a.val_end));
+        }
+      }
+    }
+    for t in &doc.texts {
+      let p = &doc.elems[t.parent];
+      if local(&p.name) == "typeRef" && !text[t.start..].starts_with("<![CDATA[") {
+        let class = format!("text of <typeRef> in <{}>", p.parent.map(|q| local(&doc.elems[q].name).to_string()).unwrap_or_default());
+        let n = class_n.entry(class.clone()).or_insert(0);
+        if *n < per_class {
+          *n += 1;
+          slots.push((format!("{}@{}", class, t.start), t.start, t.end));
+        }
+      }
+    }
+    // the first fault: the namespace of the document (`None`: left as it is)
+    let ns_attr = root.attrs.iter().find(|a| a.name == "namespace");
+    let mut ns_faults: Vec<(String, Option<(usize, usize, String)>, String)> = vec![("as-is".into(), None, ns0.clone())];
+    let mut ns_values: Vec<(String, String)> = vec![("empty".into(), String::new()), ("#".into(), "#".into()), ("name".into(), name0.clone())];
+    if let Some(h) = hrefs.first() {
+      ns_values.push(("href".into(), h.clone()));
+      ns_values.push(("href-before-#".into(), h.split('#').next().unwrap_or("").to_string()));
+      ns_values.push(("href-without-#".into(), h.replace('#', "")));
+    }
+    if let Some(i) = ids.get(1).or(ids.first()) {
+      ns_values.push(("id".into(), i.clone()));
+    }
+    if let Some(i) = imports.first() {
+      ns_values.push(("import".into(), i.clone()));
+    }
+    let mut seen_ns = std::collections::HashSet::new();
+    seen_ns.insert(ns0.clone());
+    if let Some(a) = ns_attr {
+      ns_faults.push(("removed".into(), Some((a.full_start, a.full_end, String::new())), String::new()));
+    }
+    for (label, v) in ns_values {
+      if !seen_ns.insert(v.clone()) {
+        continue;
+      }
+      let edit = match ns_attr {
+        Some(a) => (a.val_start, a.val_end, v.clone()),
+        None => match root.attrs.first() {
+          Some(f) => (f.full_start, f.full_start, format!(" namespace=\"{}\"", v)),
+          None => continue,
+        },
+      };
+      ns_faults.push((label, Some(edit), v));
+    }
+    let mut w = W { base: bi, cases: vec![], meta: vec![] };
+    for (nlabel, nedit, ns) in &ns_faults {
+      let values = related_values(ns, &name0, &ids, &names, &type_refs, &hrefs, &imports);
+      if let Some(e) = nedit {
+        w.cases.push((w.cases.len(), vec![e.clone()]));
+        w.meta.push(format!("related:namespace {}", nlabel));
+      }
+      for (at, s, e) in &slots {
+        for (vlabel, v) in &values {
+          if &text[*s..*e] == v.as_str() {
+            continue;
+          }
+          let mut edits = vec![(*s, *e, v.clone())];
+          if let Some(ne) = nedit {
+            edits.push(ne.clone());
+          }
+          w.cases.push((w.cases.len(), edits));
+          w.meta.push(format!("related:namespace {} + {} := {}", nlabel, at, vlabel));
+        }
+      }
+    }
+    // two replacements at two positions (the namespace as it is)
+    let values = related_values(&ns0, &name0, &ids, &names, &type_refs, &hrefs, &imports);
+    if slots.len() >= 2 {
+      for _ in 0..(if thorough { 4000 } else { 300 }) {
+        let a = rng.below(slots.len() as u64) as usize;
+        let mut b = rng.below(slots.len() as u64 - 1) as usize;
+        if b >= a {
+          b += 1;
+        }
+        let (va, vb) = (rng.pick(&values), rng.pick(&values));
+        w.cases.push((w.cases.len(), vec![(slots[a].1, slots[a].2, va.1.clone()), (slots[b].1, slots[b].2, vb.1.clone())]));
+        w.meta.push(format!("related:{} := {} + {} := {}", slots[a].0, va.0, slots[b].0, vb.0));
+      }
+    }
+    works.push(w);
+  }
+  rep.extra.insert("related_bases".into(), json!(works.len()));
+  rep.extra.insert("related_cases".into(), json!(works.iter().map(|w| w.cases.len()).sum::<usize>()));
+  let t0 = std::time::Instant::now();
+  let n_threads = std::thread::available_parallelism().map(|n| n.get()).unwrap_or(4).min(16);
+  let results: Mutex<Vec<(usize, Vec<(usize, Obs)>)>> = Mutex::new(vec![]);
+  let next = std::sync::atomic::AtomicUsize::new(0);
+  let mut pieces: Vec<(usize, usize, usize)> = vec![];
+  for (k, w) in works.iter().enumerate() {
+    let mut s = 0;
+    while s < w.cases.len() {
+      let e = (s + 400).min(w.cases.len());
+      pieces.push((k, s, e));
+      s = e;
+    }
+  }
+  std::thread::scope(|s| {
+    for _ in 0..n_threads {
+      s.spawn(|| loop {
+        let p = next.fetch_add(1, std::sync::atomic::Ordering::SeqCst);
+        if p >= pieces.len() {
+          break;
+        }
+        let (k, a, b) = pieces[p];
+        let w = &works[k];
+        let mut out = vec![];
+        run_cases(&chosen[w.base].1, &w.cases[a..b], &mut out);
+        results.lock().unwrap().push((k, out));
+      });
+    }
+  });
+  rep.extra.insert("related_seconds".into(), json!(t0.elapsed().as_secs()));
+  let mut results = results.into_inner().unwrap();
+  results.sort_by_key(|r| r.0);
+  for (k, out) in results {
+    let w = &works[k];
+    let (bname, btext) = &chosen[w.base];
+    for (id, obs) in out {
+      let meta = &w.meta[id];
+      rep.case(&format!("{}|{}", bname, meta), true);
+      rep.hit(&format!("related → {}", obs.stage));
+      let faulted = apply(btext, &w.cases[id].1);
+      if let Some(sig) = signature("related", &obs, &faulted) {
+        let input = format!(
+          "{} | {} | replacements {:?} | {}",
+          bname,
+          meta,
+          w.cases[id].1.iter().map(|e| e.2.as_str()).collect::<Vec<_>>(),
+          if faulted.len() < 6000 { faulted } else { format!("(text of {} bytes; edits {:?})", faulted.len(), w.cases[id].1) }
+        );
+        rep.disagree(Kind::ImplVsSpec, "related", &sig, &input, &format!("{} {}", obs.stage, obs.detail), "a model, or an error");
       }
     }
   }
